@@ -54,6 +54,9 @@ namespace optree {
         Py_VISIT(pair.first.ptr());
     }
     Py_VISIT(self.m_root.ptr());
+    if (self.m_leaf_predicate) [[unlikely]] {
+        Py_VISIT(self.m_leaf_predicate->ptr());
+    }
     return 0;
 }
 
